@@ -48,12 +48,13 @@ pub enum Pos {
     PgTypeRenameValueNew,
     Json,
     PgArrayElem,
+    PgArraySingle,
     UpdateSet,
     InsertValue,
     CaseThen,
 }
 
-pub const ALL_POS: [Pos; 22] = [
+pub const ALL_POS: [Pos; 23] = [
     Pos::ValueToString,
     Pos::SelectVal,
     Pos::Constant,
@@ -71,6 +72,7 @@ pub const ALL_POS: [Pos; 22] = [
     Pos::PgTypeRenameValue,
     Pos::Json,
     Pos::PgArrayElem,
+    Pos::PgArraySingle,
     Pos::UpdateSet,
     Pos::InsertValue,
     Pos::CaseThen,
@@ -107,7 +109,7 @@ pub fn applicable(pos: Pos, d: Dialect, p: &Payload) -> bool {
         Pos::ColumnComment | Pos::TableComment | Pos::MysqlEnumLabel => text && d == Dialect::Mysql,
         Pos::PgTypeCreate | Pos::PgTypeAddValue | Pos::PgTypeAddBefore | Pos::PgTypeRenameValue | Pos::PgTypeAddAfter | Pos::PgTypeRenameValueNew => text && d == Dialect::Postgres,
         Pos::Json => text,
-        Pos::PgArrayElem => d == Dialect::Postgres && !matches!(p, Payload::Bytes(_)),
+        Pos::PgArrayElem | Pos::PgArraySingle => d == Dialect::Postgres && !matches!(p, Payload::Bytes(_)),
     }
 }
 
@@ -196,6 +198,15 @@ fn render(pos: Pos, d: Dialect, p: &Payload) -> String {
             };
             let arr = Value::Array(ty, Some(Box::new(vec![v, Value::String(Some(Box::new("other".into())))])));
             let q = Query::select().expr(Expr::val(arr)).to_owned();
+            q.to_string(PostgresQueryBuilder)
+        }
+        Pos::PgArraySingle => {
+            // an array holding exactly the one value
+            let ty = match p {
+                Payload::Char(_) => ArrayType::Char,
+                _ => ArrayType::String,
+            };
+            let q = Query::select().expr(Expr::val(Value::Array(ty, Some(Box::new(vec![v]))))).to_owned();
             q.to_string(PostgresQueryBuilder)
         }
         Pos::UpdateSet => {
